@@ -11,6 +11,10 @@
     transaction is non-empty. *)
 From Coq Require Import List ZArith NArith Bool.
 From C33 Require Import C21.Model C21.Spec C21.ProofsLm C21.ProofsInv C21.ProofsMain C21.ProofsSpec.
+From C33 Require Import C21.QueueModel C21.QueueProofs C21.QueueInst.
+From C33 Require Import C21.SkipQModel C21.SkipQProofsQ C21.SkipQProofs C21.SkipQProofs2.
+From C33 Require Import C21.DelayModel C21.DelaySpec C21.DelayProofsMaps C21.DelayProofs.
+From Coq Require Import Permutation Sorted.
 Import ListNotations.
 Open Scope Z_scope.
 
@@ -153,3 +157,189 @@ Example C21_peracc_hypothesis_needed :
   map fst (s_q st) = [1%N] /\ s_acc st = [(0%N, [])] /\ s_fee st = 0.
 Proof. exact example_peracc_needed. Qed.
 Print Assumptions C21_peracc_hypothesis_needed.
+
+(** * Any QueueCache (QueueModel.v / QueueProofs.v)
+
+    txCache over an arbitrary queue given as a record of operations.  [contract]:
+    a fresh queue is empty; the Walk has no hash twice; GetItem, Size,
+    GetCacheBytes agree with the Walk; Size <= capacity; a Push that answers an
+    error changes nothing; a successful Push adds exactly the pushed item and
+    removes nothing; Remove removes exactly the named item.  The Walk order is
+    free.  [gconsistent]: the invariant [consistent] holds for the pool taken in
+    some arrival order [G] that is a permutation of the Walk. *)
+Theorem C21_consistent_any_contract_queue :
+  forall (QT : Type) (o : qops QT) (ok : QT -> Prop) sh c es,
+  1 <= c_peracc c -> contract c o ok ->
+  gconsistent o c sh (grun o sh c (ginit o) es)
+  /\ Forall (gconsistent o c sh) (grun_states o sh c (ginit o) es).
+Proof. intros QT o ok sh c es. exact (contract_all_histories o ok sh c es). Qed.
+Print Assumptions C21_consistent_any_contract_queue.
+
+(** when Push appends and Remove keeps the order, the Walk itself is that arrival order *)
+Theorem C21_contract_arrival_order :
+  forall (QT : Type) (o : qops QT) (ok : QT -> Prop) sh c es,
+  1 <= c_peracc c -> contract c o ok -> arrival_ordered o ok ->
+  Forall (fun st => consistent sh c (gas_state o st (keyed_of (qo_walk o (g_q st)))))
+         (grun o sh c (ginit o) es :: grun_states o sh c (ginit o) es).
+Proof. intros QT o ok sh c es. exact (contract_arrival_all_histories o ok sh c es). Qed.
+Print Assumptions C21_contract_arrival_order.
+
+(** SimpleQueue (simplequeue.go as modelled in Model.v) meets the contract and is arrival-ordered *)
+Theorem C21_simple_queue_contract :
+  forall c, contract c (simple_ops c) (simple_ok c) /\ arrival_ordered (simple_ops c) (simple_ok c).
+Proof. intros c. split; [apply simple_contract|apply simple_arrival]. Qed.
+Print Assumptions C21_simple_queue_contract.
+
+(** ... so the invariant of Model.v's pool (C21_consistent_all_histories, final
+    state) is a corollary of the generic theorem *)
+Theorem C21_consistent_via_contract : forall sh c es,
+  1 <= c_peracc c -> consistent sh c (run sh c init es).
+Proof. exact simple_consistent_via_contract. Qed.
+Print Assumptions C21_consistent_via_contract.
+
+(** /repo's common/skiplist.Queue (C24.Model) wrapped as a QueueCache meets the
+    contract under NO representation invariant: its Push evicts (contract
+    mismatch for anyone who plugs it into txCache) *)
+Theorem C21_skiplist_queue_breaks_contract :
+  forall c ok, ~ contract c (skip_ops kprice ktab 1) ok.
+Proof. exact skiplist_queue_breaks_contract. Qed.
+Print Assumptions C21_skiplist_queue_breaks_contract.
+
+Example C21_skiplist_push_evicts :
+  let o := skip_ops kprice ktab 1 in
+  let q1 := fst (qo_push o (mkItem kA 0) (qo_new o)) in
+  let q2 := fst (qo_push o (mkItem kB 0) q1) in
+  snd (qo_push o (mkItem kA 0) (qo_new o)) = E_OK /\ snd (qo_push o (mkItem kB 0) q1) = E_OK
+  /\ map ihash (qo_walk o q1) = [1%N] /\ map ihash (qo_walk o q2) = [2%N].
+Proof. exact skiplist_push_evicts. Qed.
+Print Assumptions C21_skiplist_push_evicts.
+
+(** * txCache over common/skiplist.Queue, precisely (SkipQModel.v): any score
+    function [sc], transactions named by hash through [txof] ([hash_table_ok]:
+    the transaction a hash names has that hash).  [pconsistent]: [consistent]
+    for some arrival order that is a permutation of the Walk. *)
+
+(** the unguarded claim is false ... *)
+Definition C21_skipqueue_full : Prop := price_full_claim.
+
+Theorem C21_skipqueue_refuted : ~ C21_skipqueue_full.
+Proof. exact price_full_refuted. Qed.
+Print Assumptions C21_skipqueue_refuted.
+
+(** ... it holds for every history in which no Push evicts (boolean guard on
+    the model's record of evictions) ... *)
+Theorem C21_skipqueue_partial : forall sc sh txof c es,
+  1 <= c_peracc c -> hash_table_ok txof ->
+  forallb no_evict (pevictions sc sh txof c (pinit c) es) = true ->
+  pconsistent txof sh c (prun sc sh txof c (pinit c) es)
+  /\ Forall (pconsistent txof sh c) (prun_states sc sh txof c (pinit c) es).
+Proof. exact price_partial. Qed.
+Print Assumptions C21_skipqueue_partial.
+
+(** ... and the guard is tight: the first eviction of any history breaks it *)
+Theorem C21_skipqueue_first_eviction_breaks : forall sc sh txof c es now h,
+  1 <= c_peracc c -> hash_table_ok txof ->
+  forallb no_evict (pevictions sc sh txof c (pinit c) es) = true ->
+  pev (pstep sc sh txof c (prun sc sh txof c (pinit c) es) (PPush now h)) <> [] ->
+  ~ pconsistent txof sh c (pst (pstep sc sh txof c (prun sc sh txof c (pinit c) es) (PPush now h))).
+Proof. exact price_first_eviction_breaks. Qed.
+Print Assumptions C21_skipqueue_first_eviction_breaks.
+
+(** the queue side holds for every history, evictions or not: no duplicate,
+    Size = length of the Walk <= capacity, Walk sorted by score (descending),
+    scores and byte total as the transactions say, Exist = membership *)
+Theorem C21_skipqueue_queue_side : forall sc sh txof c es,
+  hash_table_ok txof ->
+  pqueue_ok sc txof c (prun sc sh txof c (pinit c) es)
+  /\ Forall (pqueue_ok sc txof c) (prun_states sc sh txof c (pinit c) es).
+Proof. exact price_queue_all. Qed.
+Print Assumptions C21_skipqueue_queue_side.
+
+Theorem C21_skipqueue_block_txs_gone : forall sc sh txof c es now height bt hs h,
+  hash_table_ok txof -> In h hs ->
+  ~ In h (map Q.ihash (pwalk (pst (pstep sc sh txof c (prun sc sh txof c (pinit c) es)
+                                          (PAddBlock now height bt hs))))).
+Proof. exact price_block_gone. Qed.
+Print Assumptions C21_skipqueue_block_txs_gone.
+
+Example C21_skipqueue_guard_satisfiable :
+  forallb no_evict (pevictions ex_price pid gtab gcfg (pinit gcfg) gevents) = true
+  /\ map (fun s => map Q.ihash (pwalk s)) (prun_states ex_price pid gtab gcfg (pinit gcfg) gevents)
+     = [[1]; [1; 2]; [1; 2]; [1; 2]; [2]; [4; 2]; [4; 2]; [4]; [4; 3]; []]%N.
+Proof. exact example_price_guard. Qed.
+Print Assumptions C21_skipqueue_guard_satisfiable.
+
+Example C21_skipqueue_witness :
+  let s := prun ex_price pid ptab pcfg (pinit pcfg) (pwit ++ [PRemove [1%N]]) in
+  pevictions ex_price pid ptab pcfg (pinit pcfg) (pwit ++ [PRemove [1%N]]) = [[]; [1%N]; []]
+  /\ map Q.ihash (pwalk s) = [2%N]
+  /\ option_map (map fst) (lm_get 0%N (p_acc s)) = Some [1%N] /\ map fst (p_last s) = [1; 2]%N
+  /\ option_map t_h (lm_get 1%N (p_sh s)) = Some 1%N /\ p_fee s = 10000.
+Proof. exact example_price_witness. Qed.
+Print Assumptions C21_skipqueue_witness.
+
+(** * The delayed-transaction cache (DelayModel.v / DelaySpec.v)
+
+    [drel d p]: the two maps of the cache (EndDelayTime -> transactions, hash ->
+    EndDelayTime) describe exactly the flat list [p] of pending
+    (hash, EndDelayTime) pairs: no hash twice, each map is the other's inverse,
+    every list is the pending transactions of its key in insertion order. *)
+Theorem C21_delay_refines_flat : forall sh c size hdr es,
+  let s0 := (set_hdr (fst hdr) (snd hdr) init, dnew size) in
+  drel (snd (drun sh c s0 es)) (sp_run sh c size s0 [] es).
+Proof. exact delay_refines. Qed.
+Print Assumptions C21_delay_refines_flat.
+
+(** under that relation the observables are those of the flat specification:
+    contains, the number of entries, the answer of an add *)
+Theorem C21_delay_observables : forall d p,
+  drel d p ->
+  (forall h, dcontains h d = pget h p)
+  /\ dlen d = Z.of_nat (length p)
+  /\ (forall tx endt, snd (dadd tx endt d) = snd (sp_add (d_size d) tx endt p)).
+Proof. exact delay_observables. Qed.
+Print Assumptions C21_delay_observables.
+
+(** delExpiredTxs hands out exactly the due entries, each once *)
+Theorem C21_delay_release_exact : forall d p last curr height,
+  drel d p ->
+  NoDup (snd (drelease last curr height d))
+  /\ (forall h, In h (snd (drelease last curr height d))
+                <-> exists e, pget h p = Some e /\ due last curr height e = true)
+  /\ drel (fst (drelease last curr height d)) (fst (sp_release last curr height p)).
+Proof. exact release_exact. Qed.
+Print Assumptions C21_delay_release_exact.
+
+(** order of the released list: the keys inside the time window ascending (each
+    key's transactions in insertion order), then the height key if it lies
+    outside the window *)
+Theorem C21_delay_release_order : forall d p last curr height,
+  drel d p ->
+  exists a b, snd (drelease last curr height d) = a ++ b
+    /\ (exists ks, StronglySorted Z.le ks /\ Forall (fun k => in_window last curr k = true) ks
+                   /\ a = concat (map (fun k => group k p) ks))
+    /\ (b = [] \/ (in_window last curr height = false /\ b = group height p)).
+Proof. intros d p last curr height R. exact (release_order d p last curr height R). Qed.
+Print Assumptions C21_delay_release_order.
+
+(** nothing but a release removes an entry, and a release leaves what is not
+    due: an entry whose EndDelayTime is not after the last block time and is not
+    the height of the block stays (with block times and heights only growing it
+    stays for ever and keeps its slot of the bounded cache) *)
+Theorem C21_delay_not_due_stays : forall p h e,
+  NoDup (hkeys p) -> pget h p = Some e ->
+  (forall size tx endt, pget h (fst (sp_add size tx endt p)) = Some e)
+  /\ (forall last curr height, e <= last -> e <> height ->
+        pget h (fst (sp_release last curr height p)) = Some e).
+Proof. exact not_due_summary. Qed.
+Print Assumptions C21_delay_not_due_stays.
+
+Example C21_delay_example :
+  snd (dadd (Some 4%N) 9 ex_d) = D_OVERFLOW /\ snd (dadd (Some 1%N) 9 (dnew 3)) = D_OK
+  /\ snd (dadd (Some 1%N) 9 ex_d) = D_OVERFLOW
+  /\ snd (drelease 100 110 7 ex_d) = [1; 2; 3]%N
+  /\ d_hash (fst (drelease 100 110 7 ex_d)) = []
+  /\ snd (drelease 100 104 6 ex_d) = [] /\ dlen (fst (drelease 100 104 6 ex_d)) = 3
+  /\ snd (drelease 100 110 105 ex_d) = [1; 2]%N.
+Proof. exact example_delay_release. Qed.
+Print Assumptions C21_delay_example.
